@@ -72,14 +72,15 @@ type fieldProfile struct {
 }
 
 type GenCfg struct {
-	Fields    []fieldProfile // ordinary text fields
-	SynFields []fieldProfile
-	VecFields []fieldProfile
-	Composite bool
-	IDSpace   int
-	MaxToks   int
-	BigVals   bool
-	IDDocVals bool // the _id field is indexed with doc values (legal, unusual)
+	Fields      []fieldProfile // ordinary text fields
+	SynFields   []fieldProfile
+	VecFields   []fieldProfile
+	Composite   bool
+	CompositeDV bool // the composite field is indexed with doc values
+	IDSpace     int
+	MaxToks     int
+	BigVals     bool
+	IDDocVals   bool // the _id field is indexed with doc values (legal, unusual)
 	// WideNums: positions, offsets, frequencies, field lengths and array positions
 	// that need 2-3 varint bytes (>= 128, >= 16384)
 	WideNums bool
@@ -89,7 +90,7 @@ type GenCfg struct {
 var alphabet = []string{"a", "b", "c", "d", "e", "ab", "ba", "é", "日", "z", "zz", "aa", "m", "~", "0", "b\x00"}
 
 func genTerm(c *Chooser, allowEmpty bool) string {
-	if allowEmpty && c.Prob(1, 40, "term.empty") {
+	if allowEmpty && c.Prob(1, 12, "term.empty") {
 		return ""
 	}
 	n := 1 + c.Skewed(3, "term.len")
@@ -161,6 +162,9 @@ func genCfg(c *Chooser, wantSyn, wantVec bool) *GenCfg {
 		g.Fields = append(g.Fields, p)
 	}
 	g.Composite = c.Choose(3, "cfg.composite") == 0
+	if g.Composite && c.Prob(1, 3, "cfg.compositedv") {
+		g.CompositeDV = true
+	}
 	g.IDSpace = 0 // set by caller
 	g.MaxToks = 1 + c.Choose(6, "cfg.maxtoks")
 	if many {
@@ -174,7 +178,7 @@ func genCfg(c *Chooser, wantSyn, wantVec bool) *GenCfg {
 		ns := 1 + c.Choose(2, "cfg.nsyn")
 		for i := 0; i < ns; i++ {
 			p := fieldProfile{Name: "syn" + strconv.Itoa(i), Kind: 's', Opts: index.IndexField}
-			p.Vocab = genVocab(c, 2+c.Choose(5, "cfg.synvocab"), false)
+			p.Vocab = genVocab(c, 2+c.Choose(5, "cfg.synvocab"), i == 0)
 			if c.Prob(1, 12, "cfg.synbig") {
 				// more than 255 distinct synonyms in one thesaurus
 				for k := 0; k < 300; k++ {
@@ -340,6 +344,9 @@ func genDoc(c *Chooser, g *GenCfg, id string) DocSpec {
 	}
 	if g.Composite {
 		cf := FieldSpec{Name: "_all", Kind: 'c', Opts: index.IndexField | index.IncludeTermVectors, Typ: 'c'}
+		if g.CompositeDV {
+			cf.Opts |= index.DocValues
+		}
 		idx := map[string]int{}
 		for _, f := range d.Fields {
 			if f.Name == "_id" || (f.Kind != 't' && f.Kind != 'g') || !f.Opts.IsIndexed() {
@@ -378,6 +385,11 @@ func genSynDoc(c *Chooser, g *GenCfg, id string) DocSpec {
 		p := &g.SynFields[(first+k)%len(g.SynFields)]
 		f := FieldSpec{Name: p.Name, Kind: 's', Opts: p.Opts, Typ: 's'}
 		nd := 1 + c.Skewed(3, "syn.ndefs")
+		if c.Prob(1, 10, "syn.nodefs") {
+			// a synonym field whose definitions were all analysed away: its thesaurus
+			// exists and is empty
+			nd = 0
+		}
 		seen := map[string]bool{}
 		for i := 0; i < nd; i++ {
 			term := p.Vocab[c.Choose(len(p.Vocab), "syn.term")]
@@ -390,6 +402,11 @@ func genSynDoc(c *Chooser, g *GenCfg, id string) DocSpec {
 			ss := map[string]bool{}
 			for j := 0; j < ns; j++ {
 				s := p.Vocab[c.Choose(len(p.Vocab), "syn.syn")]
+				if s == "" {
+					// the empty string is a legal term (dictionary key) but not a legal
+					// synonym: the reader rejects a synonym of length 0 by design
+					s = "~e"
+				}
 				if !ss[s] {
 					ss[s] = true
 					def.Syns = append(def.Syns, s)
